@@ -383,3 +383,46 @@ def spines(draw):
             out.append(c)
         cur = kids[k]
     return out
+
+
+@st.composite
+def near_groups(draw):
+    """A sibling group that is complete except for one member, which is represented only by one deep descendant (or by
+    a few of them) reached along a structured path (all-first, all-last, 2000.., 1333.., random): the region is almost
+    the parent, and an implementation that detects groups arithmetically must not mistake the stand-in for the sibling.
+    Optionally wrapped in the remaining siblings of the parent's own group (so that a wrong merge cascades)."""
+    r = draw(st.sampled_from([0, 1, 2, 2, 3, 3, 4, 6, 12, 20]))
+    if r == 0:
+        kids = refids.children(0, 0)
+    else:
+        parent = draw(cell_ids(r - 1, r - 1))
+        kids = refids.children(parent, r)
+    miss = draw(st.integers(0, len(kids) - 1))
+    x = kids[miss]
+    bottom = draw(st.sampled_from([29, 29, 28, 27, 26, min(29, r + 1), min(29, r + 5)]))
+    bottom = max(bottom, r + 1)
+    style = draw(st.sampled_from(["first", "last", "2000", "1333", "0333", "3000", "random"]))
+    cur = x
+    for lvl in range(r + 1, bottom + 1):
+        ks = refids.children(cur, lvl)
+        j = lvl - (r + 1)
+        if style == "first":
+            i = 0
+        elif style == "last":
+            i = len(ks) - 1
+        elif style in ("2000", "1333", "0333", "3000"):
+            head, tail = int(style[0]), int(style[1])
+            i = (head if j == 0 else tail) % len(ks)
+        else:
+            i = draw(st.integers(0, len(ks) - 1))
+        cur = ks[i]
+    out = [k for i, k in enumerate(kids) if i != miss]
+    out.insert(miss if draw(st.booleans()) else len(out), cur)
+    if draw(st.integers(0, 3)) == 0 and refids.res_of(cur) >= 1:
+        # a second stand-in: a sibling of the deep descendant
+        sibs = refids.children(refids.parent(cur, refids.res_of(cur) - 1), refids.res_of(cur))
+        out.append(sibs[(sibs.index(cur) + 1) % len(sibs)])
+    if r >= 1 and draw(st.booleans()):
+        up = refids.children(refids.parent(kids[0], r - 2), r - 1) if r >= 2 else (refids.children(0, 0) if r == 1 else [])
+        out += [u for u in up if u != refids.parent(kids[0], r - 1)]
+    return out
